@@ -296,6 +296,30 @@ def run(chk: Check):
                 chk.fail(f"{name} on large data (E={e}, N={n}, D={d}): reordering ensemble members {perm} changed the loss: {v1!r} -> {vp!r}", case)
             if not (vq == v1 or abs(vq - v1) <= 1e-9 * max(1.0, abs(v1)) or (vq != vq and v1 != v1)):
                 chk.fail(f"{name} on large data (E={e}, N={n}, D={d}): reversing the coordinates changed the loss: {v1!r} -> {vq!r}", case)
+    # one loss object over a long life: several hundred different data sets (as in a long calibration against changing targets, or one object serving many
+    # calibrations), then the first few again - each value is what a fresh object gives, whatever was evaluated before and however often
+    n_life = 300 if chk.tier == "quick" else 1200
+    for name in ("msm", "msm_std", "msm_inv", "minkowski", "fourier", "gsl", "likelihood"):
+        _CUR["d"] = 1
+        obj = makers[name]()
+        data = [gen_series(rng, 1, 12, 1) for _ in range(n_life)]
+        case = {"case": {"kind": "long_life", "loss": name, "evaluations": n_life}}
+        with warnings.catch_warnings(), np.errstate(all="ignore"):
+            warnings.simplefilter("ignore")
+            try:
+                first = [float(obj.compute_loss(sm, rl)) for sm, rl in data]
+                again = [float(obj.compute_loss(sm, rl)) for sm, rl in data[:6]]
+                fresh = [float(makers[name]().compute_loss(sm, rl)) for sm, rl in data[:6]]
+            except Exception as ex:  # noqa: BLE001
+                chk.fail(f"{name}: one loss object evaluated {n_life} data sets in a row raised {type(ex).__name__}: {str(ex)[:80]}", case)
+                continue
+        chk.case(["long-life", name, n_life, data[0][1].tolist()], True, {"loss": name, "evaluations": n_life})
+        chk.count("loss_object_long_life:" + name)
+        same = lambda a, b: f2h(a) == f2h(b) or (a != a and b != b)
+        for k in range(6):
+            if not same(first[k], fresh[k]) or not same(again[k], fresh[k]):
+                chk.fail(f"{name}: data set {k} evaluated by one object gives {first[k]!r} at first and {again[k]!r} after {n_life} other evaluations; a fresh object gives {fresh[k]!r}", case)
+                break
     # wrong-length lists on the built-ins
     for name, mk in makers.items():
         for which in ("coordinate_weights", "coordinate_filters"):
